@@ -12,14 +12,21 @@ from concurrent.futures import ThreadPoolExecutor
 import lib
 
 
-def crash_images(C04, rng, base, n_images):
+def crash_images(C04, rng, base, n_images, multi_file=False):
     def cs(key, val, hid):
         return {"ConfigSet": {"config_type": None, "desc": None, "history_id": hid, "history_table_id": None, "key": key,
                               "op_time": 1700000000000 + hid, "op_user": None, "value": val}}
     n = rng.randrange(45, 70)
     keys = ["k%d\u0002g" % i for i in range(7)]
+    if multi_file:
+        # the rollover limit hook: a log file is full after 128 records, so the history spreads over several log files;
+        # compactions (every 100 entries) then cut the log across file boundaries and remove whole files
+        n = rng.randrange(420, 700)
     reqs = [cs(keys[i % 7], "v%d" % i, i + 1) for i in range(n)]
     case = {"threshold": rng.choice([6, 10, 13]), "phases": [{"reqs": reqs}], "plants": [], "pace": True}
+    if multi_file:
+        case = {"threshold": rng.choice([100, 150, 100000]), "log_limit": 43, "phases": [{"reqs": reqs}], "plants": [], "pace": True,
+                "timeout_s": 300}
     d = os.path.join(base, "cimg"); tmp = os.path.join(d, "tmp"); os.makedirs(tmp)
     cin, cout, jr = os.path.join(d, "case.jsonl"), os.path.join(d, "out.jsonl"), os.path.join(d, "journal")
     open(cin, "w").write(json.dumps(case) + "\n")
@@ -44,6 +51,14 @@ def crash_images(C04, rng, base, n_images):
         win = [i for i in range(c, min(end, c + 40)) if not (j[i][0] == "W" and name(j[i]).startswith("log_1"))]
         for i in win:
             points.add(i + 1)
+    # windows around the creation of a further log file (rollover): new file, catalogue entry, first records
+    for i, m in enumerate(j):
+        if m[0] == "C" and name(m).startswith("log_") and name(m) not in ("log_0", "log_1"):
+            for q in range(max(1, i - 6), min(len(j), i + 16)):
+                points.add(q)
+        if m[0] == "U" and name(m).startswith("log_"):
+            for q in range(max(1, i - 2), min(len(j), i + 6)):
+                points.add(q)
     points = sorted(points)
     if len(points) > n_images:
         points = sorted(rng.sample(points, n_images))
@@ -56,7 +71,7 @@ def crash_images(C04, rng, base, n_images):
         C04.write_image(img, files)
         lap = max([v for i, v in la if i < p] or [0])
         jobs.append((p, img, lap))
-    phase = {"threshold": 100000, "reqs": [], "all_reqs": reqs, "pace": False, "scratch": tmp}
+    phase = {"threshold": 100000, "reqs": [], "all_reqs": reqs, "pace": False, "scratch": tmp, "log_limit": case.get("log_limit")}
     pf = os.path.join(d, "phase.json"); open(pf, "w").write(json.dumps(phase))
     def one(job):
         p, img, lap = job
